@@ -51,6 +51,44 @@ def mv_records(rnd, thorough):
             recs.append(call(fn, name, [a2.copy(), b2.copy()], mode))                              # 2-D
             recs.append(call(fn, name, [vals.reshape(8, 1).copy(), vals.reshape(1, 8).copy()], mode))   # broadcasting
             recs.append(call(fn, name, [vals.reshape(1, 8, 1).copy(), vals.reshape(2, 1, 4).copy()[:, :, :] % 8], mode))
+    # out= given as a non-contiguous view of a larger buffer (every second column, a transposed buffer)
+    for name in ('not', 'and', 'or', 'xor'):
+        fn = fns[name + '_' if name != 'xor' else 'xor']
+        a = np.array([[rnd.randint(0, 7) for _ in range(5)] for _ in range(4)], dtype=np.uint8)
+        b = np.array([[rnd.randint(0, 7) for _ in range(5)] for _ in range(4)], dtype=np.uint8)
+        for kind in ('stride', 'transpose'):
+            arrays = [a] if name == 'not' else [a, b]
+            rec = dict(fn=name, form='mv', shapes=[[4, 5]] * len(arrays), raised=False, mode='view-' + kind,
+                       ins=[x.reshape(-1).astype(int).tolist() for x in arrays])
+            try:
+                buf = np.full((4, 10), 7, dtype=np.uint8) if kind == 'stride' else np.full((5, 4), 7, dtype=np.uint8)
+                o = buf[:, ::2] if kind == 'stride' else buf.T
+                r = fn(*arrays, out=o)
+                rec['res'] = np.asarray(r).reshape(-1).astype(int).tolist()
+                rec['arr'] = np.asarray(o).reshape(-1).astype(int).tolist()
+                rec['rshape'] = list(np.asarray(r).shape)
+            except Exception as e:
+                rec.update(raised=True, res=[], arr=[], rshape=[], err=repr(e)[:200])
+            recs.append(rec)
+    # the k-ary array forms behind the binary operators (k = 1..4), where the module has them
+    import itertools
+    for name in ('and', 'or', 'xor'):
+        kfn = getattr(logic, '_mv_' + name, None)
+        if kfn is None:
+            continue
+        for k in (1, 3, 4):
+            tuples = np.array(list(itertools.product(range(8), repeat=k)), dtype=np.uint8)
+            ins = [tuples[:, j].copy() for j in range(k)]
+            rec = dict(fn=name, form='mv', shapes=[[len(tuples)]] * k, raised=False, mode='kary', ins=[x.astype(int).tolist() for x in ins])
+            try:
+                o = np.full(len(tuples), 5, dtype=np.uint8)
+                kfn(o, *ins)
+                rec['res'] = o.astype(int).tolist()
+                rec['arr'] = rec['res']
+                rec['rshape'] = [len(tuples)]
+            except Exception as e:
+                rec.update(raised=True, res=[], arr=[], rshape=[], err=repr(e)[:200])
+            recs.append(rec)
     # shapes: scalar-like 0-d arrays, one-element arrays (holding 0 and non-0), higher ranks, random broadcasting
     shapes = [(), (1,), (3,), (2, 3), (2, 1, 3), (1, 1), (4, 2, 3)]
     for _ in range(120 if thorough else 40):
@@ -143,7 +181,7 @@ def main(tier=None, replay=None):
         ck.count('%s-%s-k%d' % (x['form'], x['fn'], len(x['ins'])))
         ck.count('mode:' + x['mode'])
         ck.nontrivial.add(sig(x))
-    ck.need_cover(['bp8-and-k4', 'bp4-xor-k3', 'bp8-not-k1', 'mv-and-k2', 'mv-not-k1', 'mode:dirty', 'mode:fresh', 'mode:alias', 'mode:None'])
+    ck.need_cover(['bp8-and-k4', 'bp4-xor-k3', 'bp8-not-k1', 'mv-and-k2', 'mv-not-k1', 'mode:dirty', 'mode:fresh', 'mode:alias', 'mode:None', 'mode:view-stride', 'mode:view-transpose', 'mode:kary'])
     ck.sample(dict(fn=recs[5]['fn'], form=recs[5]['form'], shapes=recs[5]['shapes'], ins=[i[:8] for i in recs[5]['ins']], res=recs[5]['res'][:8]))
     ck.extra['exhaustive'] = True
     ck.assumptions += ['public API only: mv_* are unary/binary, bp*v_* take 1..4 operands', 'TLC, JSON reader, NumPy broadcasting used to flatten operands']
